@@ -23,7 +23,7 @@ class Engine(EngineBase, AccessMixin, StmtMixin, CallMixin):
                 self.oblige(p, '%s/hint:%s' % (where, self.src(arg)[:60]), t, 'hint')
             elif fn.startswith('use'):
                 self.use_lemma(arg, p, sfc, where)
-            elif fn == 'unfold':
+            elif fn.startswith('unfold'):
                 self.sp_unfold(call, p, sfc)
             else:
                 raise Unsupported('ghost statement ' + fn)
@@ -197,9 +197,13 @@ class Engine(EngineBase, AccessMixin, StmtMixin, CallMixin):
         env = dict(p.env)
         for r in c.requires:
             p.assume(self.spec_bool(r, p, sfc))
-        old = (dict(p.env), dict(p.heap))
+        old = (dict(p.env), dict(p.heap), p.epoch)
         sfc.old = old
         fc.old = old
+        for (target, value) in c.ghost_sets:
+            gv = self.ev(value, p, sfc)[0].v
+            for r in self.assign(target, gv, p, sfc):
+                pass
         self.run_ghost(c.pre_ghost, p, sfc, c.key + '/pre')
         # raises conditions are evaluated in the pre-state
         conds = [(ecls, self.spec_bool(when, p, sfc) if when is not None else None) for (ecls, when) in c.raises]
@@ -265,7 +269,7 @@ class Engine(EngineBase, AccessMixin, StmtMixin, CallMixin):
     def check_frame(self, c, q, old, sfc):
         if c.modifies is None:
             return
-        old_env, old_heap = old
+        old_env, old_heap, old_epoch = old
         next0 = old_heap.get('$next', z3.Int('H0_$next'))
         locs = {}      # field -> [ref terms]
         whole = set()
@@ -274,6 +278,8 @@ class Engine(EngineBase, AccessMixin, StmtMixin, CallMixin):
         qq = q.fork()
         qq.env = dict(old_env)
         qq.heap = dict(old_heap)
+        qq.epoch = old_epoch
+        keep_only = None
         for m in c.modifies:
             if isinstance(m, ast.Attribute):
                 r = self.ev(m.value, qq, sfc)[0].v
@@ -293,6 +299,8 @@ class Engine(EngineBase, AccessMixin, StmtMixin, CallMixin):
                     dict_rows.append(r.t)
             elif isinstance(m, ast.Call) and m.func.id in ('allocates', 'callbacks'):
                 pass
+            elif isinstance(m, ast.Call) and m.func.id == 'all_but':
+                keep_only = set('f:' + ast.literal_eval(a) for a in m.args)
         r = z3.Int('fr_r')
         k = z3.Int('fr_k')
         for name, arr in q.heap.items():
@@ -300,6 +308,8 @@ class Engine(EngineBase, AccessMixin, StmtMixin, CallMixin):
             if base is None:
                 base = z3.Const('H0_' + name, arr.sort()) if name != '$next' and name != '$cblog' else None
             if base is None or arr.eq(base):
+                continue
+            if keep_only is not None and name not in keep_only:
                 continue
             if name.startswith('f:'):
                 f = name[2:]
